@@ -38,12 +38,10 @@ Record gcfg := GCfg {
 
 (* math.Round(0.8 * float64(cap)); 0.8*cap is never a tie *)
 Definition fsz_of_cap (cap : Z) : Z := (8 * cap + 5) / 10.
-(* the threshold is the float32 value num / 2^k; for the sizes used here the float32
-   product truncates to the floor of the exact product (checked by the runner against the
-   value computed by Go) *)
-Definition thr_of (fsz num k : Z) : Z := (fsz * num) / 2 ^ k.
-Definition mk_gcfg (cap num k : Z) : gcfg :=
-  let f := fsz_of_cap cap in GCfg f (thr_of f num k).
+(* the threshold in bytes, int64(GCThreshold * float32(FileSize)), is float32 arithmetic;
+   it is an input of the model, computed by the runner's float32 emulation and cross-checked
+   on every case against the value Go computes (reported by the harness) *)
+Definition mk_gcfg (cap thr : Z) : gcfg := GCfg (fsz_of_cap cap) thr.
 
 (* ------------------------------------------------------------------ garbage collection *)
 Definition file_size (c : chan) (k : Z) : Z := bytes_of (file_of c k).
@@ -137,8 +135,13 @@ Definition append_chan (c : chan) (fk : Z) (smps : list sample) : chan * Z :=
         (if existsb (Z.eqb fk) (c_open c) then c_open c else fk :: c_open c)
         (Z.max (c_counter c) fk), off).
 
-Definition commit_chan (c : chan) (start end_ fk off : Z) (smps : list sample) : chan :=
-  set_ptrs c (insert_sorted (Ptr (TR start end_) fk off (bytes_of smps)) (c_ptrs c)).
+(* index.insert: a pointer overlapping an existing one is refused (write conflict) *)
+Definition insert_conflict (c : chan) (t : tr) : bool :=
+  existsb (fun q => overlaps (p_tr q) t) (c_ptrs c).
+
+Definition commit_chan (c : chan) (start end_ fk off : Z) (smps : list sample) : chan * bool :=
+  if insert_conflict c (TR start end_) then (c, true)
+  else (set_ptrs c (insert_sorted (Ptr (TR start end_) fk off (bytes_of smps)) (c_ptrs c)), false).
 
 (* one channel's part of a frame: channel key, acquired file key, samples *)
 Definition wpart := (Z * Z * list sample)%type.
@@ -155,15 +158,26 @@ Fixpoint append_all (d : db) (ws : list wpart) : db * list Z :=
       end
   end.
 
-Fixpoint commit_all (d : db) (start end_ : Z) (ws : list wpart) (offs : list Z) : db :=
+(* every channel commits on its own; a conflict on one does not stop the others *)
+Fixpoint commit_all (d : db) (start end_ : Z) (ws : list wpart) (offs : list Z) : db * bool :=
   match ws, offs with
   | (k, fk, smps) :: r, off :: ro =>
       match alookup k d with
       | None => commit_all d start end_ r ro
-      | Some c => commit_all (aset k (commit_chan c start end_ fk off smps) d) start end_ r ro
+      | Some c =>
+          let '(c', bad) := commit_chan c start end_ fk off smps in
+          let '(d', bad') := commit_all (aset k c' d) start end_ r ro in
+          (d', bad || bad')
       end
-  | _, _ => d
+  | _, _ => (d, false)
   end.
+
+(* domain.DB.OpenWriter: the writer's start lies inside an existing domain *)
+Definition open_conflict (d : db) (start : Z) (ws : list wpart) : bool :=
+  existsb (fun w => match alookup (fst (fst w)) d with
+                    | Some c => snd (usearch (doms c) (point start))
+                    | None => true
+                    end) ws.
 
 (* idxWriter.resolveCommitEnd + 1 *)
 Definition commit_end (d : db) (start : Z) (ws : list wpart) : res Z :=
@@ -189,10 +203,12 @@ Definition commit_end (d : db) (start : Z) (ws : list wpart) : res Z :=
   end.
 
 Definition write_db (d : db) (start : Z) (ws : list wpart) : db * option err :=
+  if open_conflict d start ws then (d, Some EConflict) else
   let '(d1, offs) := append_all d ws in
   match commit_end d1 start ws with
   | Err e => (d1, Some e)
-  | Ok e => (commit_all d1 start e ws offs, None)
+  | Ok e => let '(d2, bad) := commit_all d1 start e ws offs in
+            (d2, if bad then Some EConflict else None)
   end.
 
 (* ------------------------------------------------------------------ operations *)
